@@ -406,7 +406,11 @@ class Parser:
             return self.token_error('Cannot use {} as a value.')
 
         if dest is OpCode.PUSH:
-            code_gen.push(value)
+            if move_inst is OpCode.MOVEQ:
+                # A constant, such as a quoted string, is not a variable name.
+                code_gen.add_instruction(OpCode.PUSHQ, value)
+            else:
+                code_gen.push(value)
         elif value is not dest:
             code_gen.add_instruction(move_inst, value, dest)
 
